@@ -368,3 +368,6 @@ silent("ok-c01-index-len-ge", "C01", U + "coerce_input_value.py",
 silent("ok-c03-counter-else", "C03", E + "executor.py",
        "                ):\n                    append_awaitable(index)\n\n                index += 1\n        except Exception:\n            if early_return is not None:",
        "                ):\n                    append_awaitable(index)\n                else:\n                    pass\n\n                index += 1\n        except Exception:\n            if early_return is not None:")
+v("c15-unfix-default-memo-type", "C15", "ATTR-MEMO", U + "coerce_input_value.py",
+  "        if (\n            coerced_value is Undefined\n            or default_input._memoized_type is not type_  # noqa: SLF001\n        ):",
+  "        if coerced_value is Undefined:")
